@@ -307,11 +307,22 @@ func (fr *frame) havocAll(why string) {
 	u.note("%s: whole heap havoc'd: %s", fr.fn.Name(), why)
 	ws := fr.st.ws
 	alloc := fr.st.get(u, u.regKey(allocKey, "Int"))
+	// the thread-local ghost lock state survives: unknown code is assumed lock-neutral
+	keep := map[string]string{}
+	for k := range u.keySort {
+		if strings.HasPrefix(k, "Held.") || strings.HasPrefix(k, "Blk.") || strings.HasPrefix(k, "cell.") || strings.HasPrefix(k, "iter.") {
+			keep[k] = fr.st.get(u, k)
+		}
+	}
 	fr.st = &state{over: map[string]string{}, base: &entryProv{tag: fr.tag(fmt.Sprintf("hv%d", u.nfresh)), cache: map[string]string{}}, ws: ws, u: u}
 	u.nfresh++
 	na := fr.st.get(u, allocKey)
 	u.assert("(>= " + na + " " + alloc + ")")
 	fr.st.markWritten("*")
+	for _, k := range sortedKeys(keep) {
+		fr.st.over[k] = keep[k]
+	}
+	u.note("code without contract is assumed lock-neutral (ghost lock state kept across it)")
 }
 
 func (fr *frame) unknownCall(v ssa.Value, name string, args []Val, sig *types.Signature) Val {
@@ -402,7 +413,7 @@ func (fr *frame) invokeCallVals(v ssa.Value, c *ssa.CallCommon, recv Val, rest [
 }
 
 func shortQual(t types.Type) string {
-	return types.TypeString(t, func(p *types.Package) string { return p.Path() })
+	return types.TypeString(types.Unalias(t), func(p *types.Package) string { return p.Path() })
 }
 
 func (e *Engine) ifaceContract(t types.Type, method string) *Contract {
@@ -410,7 +421,7 @@ func (e *Engine) ifaceContract(t types.Type, method string) *Contract {
 	if c, ok := e.CS.Funcs["::"+full]; ok {
 		return c
 	}
-	if n, ok := t.(*types.Named); ok && n.Obj().Pkg() != nil {
+	if n, ok := types.Unalias(t).(*types.Named); ok && n.Obj().Pkg() != nil {
 		if c, ok := e.CS.Funcs[n.Obj().Pkg().Path()+"::("+n.Obj().Name()+")."+method]; ok {
 			return c
 		}
@@ -486,7 +497,23 @@ func (fr *frame) dynamicCall(v ssa.Value, c *ssa.CallCommon, fv Val) Val {
 	sig := c.Value.Type().Underlying().(*types.Signature)
 	// callback clause of the enclosing top-level contract, by parameter name
 	if p, ok := c.Value.(*ssa.Parameter); ok && fr.contract != nil {
-		if cls, ok := fr.contract.Callback[p.Name()]; ok {
+		for k, cl := range fr.contract.CallbackPre[p.Name()] {
+			env := fr.specEnvAt(fr.blk, fr.st, nil)
+			env.inclusive = true
+			for i, a := range args {
+				env.vars[fmt.Sprintf("arg%d", i)] = a
+			}
+			t, extra, err := env.goal(cl.E)
+			if err != nil {
+				u.bindingError(fmt.Sprintf("callback requires %d of %s: %v", k+1, p.Name(), err))
+				continue
+			}
+			if o := fr.obligeO("callback.pre", fmt.Sprintf("before calling %s: %s", p.Name(), cl.Src), v.(ssa.Instruction).Pos(), t); o != nil {
+				o.Extra = extra
+			}
+		}
+		_, hasPre := fr.contract.CallbackPre[p.Name()]
+		if cls, ok := fr.contract.Callback[p.Name()]; ok || hasPre {
 			var rs []Val
 			for i := 0; i < sig.Results().Len(); i++ {
 				rs = append(rs, fr.freshOfType(p.Name()+"_r", sig.Results().At(i).Type()))
